@@ -31,11 +31,9 @@ var (
 )
 
 func GetRmCacheInstance() *ResourceManagerCache {
-	if rmCacheInstance == nil {
-		onceRMFacade.Do(func() {
-			rmCacheInstance = &ResourceManagerCache{}
-		})
-	}
+	onceRMFacade.Do(func() {
+		rmCacheInstance = &ResourceManagerCache{}
+	})
 	return rmCacheInstance
 }
 
